@@ -4070,44 +4070,52 @@ func round(number float64, precision int) float64 {
 	return math.Round(number*scale) / scale
 }
 
+// Guards the cached field lists of all NumericExprs. The parallel copies of a
+// query's command chain share the expressions, so the first calls can come
+// from several goroutines at once.
+var numericExprFieldsLock sync.RWMutex
+
 func (self *NumericExpr) GetFields() []string {
 	if self == nil {
 		return nil
 	}
 
-	if self.IsFieldsPopulated {
-		return self.Fields
+	numericExprFieldsLock.RLock()
+	isPopulated, fields := self.IsFieldsPopulated, self.Fields
+	numericExprFieldsLock.RUnlock()
+
+	if isPopulated {
+		return fields
 	}
 
-	fields := make([]string, 0)
+	fields = self.computeFields()
+
+	numericExprFieldsLock.Lock()
+	self.Fields = fields
+	self.IsFieldsPopulated = true
+	numericExprFieldsLock.Unlock()
+
+	return fields
+}
+
+func (self *NumericExpr) computeFields() []string {
 	if self.Val != nil {
-		self.Fields = append(fields, self.Val.GetFields()...)
-		self.IsFieldsPopulated = true
-		return self.Fields
+		return append(make([]string, 0), self.Val.GetFields()...)
 	}
 	if self.IsTerminal {
 		if self.Op == "now" {
-			self.IsFieldsPopulated = true
-			self.Fields = fields
-			return self.Fields
+			return make([]string, 0)
 		}
 		if self.ValueIsField {
-			self.IsFieldsPopulated = true
-			self.Fields = []string{self.Value}
-			return self.Fields
+			return []string{self.Value}
 		} else {
-			self.IsFieldsPopulated = true
-			self.Fields = []string{}
-			return self.Fields
+			return []string{}
 		}
 	} else if self.Right != nil {
-		self.IsFieldsPopulated = true
-		self.Fields = append(self.Left.GetFields(), self.Right.GetFields()...)
-		return self.Fields
+		fields := append(make([]string, 0), self.Left.GetFields()...)
+		return append(fields, self.Right.GetFields()...)
 	} else {
-		self.IsFieldsPopulated = true
-		self.Fields = self.Left.GetFields()
-		return self.Fields
+		return self.Left.GetFields()
 	}
 }
 
